@@ -8,10 +8,12 @@
                 import_new_items, merge_sub_elements, the rollback, the overlap check and the index fills, over the
                 abstract tables T (any table set) and the parser model Xml/Parser.v.
    Pure merge : Tree/MergePure.v — [pmerge]: merge_element on pure trees (element trees with the local membership of
-                every element) with the SAME walk (Load.walk); the model runner evaluates MergePure.check_load for every
-                load of the correspondence streams: heap merge (read back with MergeSpec.abs) = pure merge.  This
-                equality is validated, not proved: it is what C09_full (Tree/MergePureProofsKeys.v, stated, not
-                proved) needs beyond the theorems below, together with the classes outside [Good].
+                every element) with the SAME walk (Load.walk).  The heap merge computes the pure merge of the trees it
+                reads (C09_merge_refines, C09_load_refines: Tree/LoadRefine*.v — abstraction [AbsA] of the reachable heap
+                subtree with its footprint, frame lemmas, equivariance of the walk under the renaming position <-> node
+                id), so the union theorems hold for load_parsed / m_load_buffer themselves (C09_merge_union); the model
+                runner additionally evaluates MergePure.check_load for every load of the correspondence streams.  What
+                C09_full (Tree/MergePureProofsKeys.v, stated, not proved) still needs are the classes outside [Good].
    Spec side  : Tree/MergeSpec.v — masters with an assignment of elements to files ([mtree]), partial views
                 ([project], [split]), ancestor-closed assignments that split only below splittable parents
                 ([Splittable]), the merged model read back from the heap ([abs_model]) and what it must be
@@ -26,7 +28,8 @@
    they have no key). *)
 From AV Require Import Base.Bytes Base.Outcome Hash.HashModel Tree.Heap Tree.Ops Tree.Script Tree.Load Tree.Observe
   Tree.MergeSpec Tree.MergePure Tree.LoadProofs Tree.LoadProofsWalk Tree.LoadProofsRefuted
-  Tree.MergePureProofsBase Tree.MergePureProofs Tree.MergePureProofsMain Tree.MergePureProofsKeys.
+  Tree.MergePureProofsBase Tree.MergePureProofs Tree.MergePureProofsMain Tree.MergePureProofsKeys
+  Tree.LoadRefineBase Tree.LoadRefinePure Tree.LoadRefineHeap Tree.LoadRefineMain Tree.LoadRefineGood Tree.LoadRefineTop.
 From AV Require Xml.Lexer Xml.Parser.
 Open Scope N_scope.
 
@@ -172,3 +175,117 @@ Theorem C09_example_conflict_rejected :
   results [("a"%string, conf_a); ("b"%string, conf_b)] = Some [OK 0; ER InvalidFileMerge] /\
   results [("b"%string, conf_b); ("a"%string, conf_a)] = Some [OK 0; ER InvalidFileMerge].
 Proof. exact (conj conflict_rejected conflict_rejected_rev). Qed.
+
+(* ====================================================================== the heap merge IS the pure merge *)
+(* ---- merge_element refines pmerge [U]: for every table set and world, if the subtrees below parent_a and parent_b are
+        the (id-annotated) trees ta and tb (AbsA: every node of the tree is the heap node with that id — name, type,
+        content, attributes, comment, local membership), no node id occurs twice in them, the walk results of the pure
+        merge name every sub-element at most once (Clean) and the pure merge of the erased trees succeeds, then the heap
+        merge succeeds, the subtree below parent_a afterwards is a tree ta' whose erasure is the pure result, built from
+        the nodes of the two trees (each at most once), and no other node, no file and no model record is touched. *)
+Theorem C09_merge_refines :
+  forall (T : tables) (LATEST defref : N) (fuel : nat) (ta tb : atree) (files : list N) (nf : N) (w : world) (ha' : htree),
+    AbsA w ta -> AbsA w tb -> NoDup (aids ta ++ aids tb) ->
+    Clean T LATEST defref (fver_of w) fuel (erase ta) files (erase tb) nf ->
+    pmerge T LATEST defref (fver_of w) fuel (erase ta) files (erase tb) nf = Val (OK ha') ->
+    exists w' ta',
+      merge_element T LATEST defref fuel (a_id ta) files (a_id tb) nf w = Val (OK tt, w') /\
+      AbsA w' ta' /\ erase ta' = ha' /\ a_id ta' = a_id ta /\ NoDup (aids ta') /\
+      incl (aids ta') (aids ta ++ aids tb) /\ same_except w w' (aids ta ++ aids tb).
+Proof. exact (fun T L d fuel => merge_refine T L d fuel). Qed.
+
+(* the merges of the class Good are Clean, for every fuel *)
+Theorem C09_good_is_clean :
+  forall (T : tables) (LATEST defref v : N) (fver : N -> option N) (fuel : nat) (t : mtree), Good T defref v t ->
+  forall (F : list N) (g : N) (inh : option (list N)) (a : htree),
+    (forall f, In f (g :: F) -> fver f = Some v) ->
+    ~ In g F -> In g (mfiles t) -> Rep T F inh t a ->
+    Clean T LATEST defref fver fuel a (inF F (mfiles t)) (pview g t) g.
+Proof. exact rep_clean. Qed.
+
+(* ---- load_parsed (all of load_buffer_internal after the parse) refines the pure merge [U]: the model m is the tree ta
+        with the files `files` (ModelTree: root and file list of the model record, AbsA, no id twice, ids below w_next).
+        If the pure merge of the model tree with the parsed tree is Clean and succeeds with a result satisfying P for
+        every sufficient fuel, then a load that returns is rejected by the overlap check or succeeds with the next file
+        id, registers the file, and the model is the tree ta' with erase ta' = the pure result where the root joined the
+        new file — in particular it is never rejected with InvalidFileMerge. *)
+Theorem C09_load_refines :
+  forall (T : tables) (LATEST defref : N) (m : N) (filename : list N) (root : Parser.etree) (st : Parser.pstate)
+         (w : world) (ta : atree) (files : list N) (r : out N) (w' : world) (P : htree -> Prop),
+    ModelTree w m ta files -> files <> [] ->
+    let fid := N.of_nat (List.length (w_files w)) in
+    let fl := mkFile m filename (Parser.p_version st) (Parser.p_standalone st) in
+    let fver := fver_files (w_files w ++ [fl]) in
+    (forall fuel, (adepth ta < fuel)%nat ->
+       Clean T LATEST defref fver fuel (erase ta) (fold_right set_add [] files) (htree_of_etree root) fid /\
+       exists ha', pmerge T LATEST defref fver fuel (erase ta) (fold_right set_add [] files) (htree_of_etree root) fid = Val (OK ha') /\
+                   P ha') ->
+    load_parsed T LATEST defref m filename root st w = Val (r, w') ->
+    r = ER OverlappingDataError \/
+    (r = OK fid /\ w_files w' = w_files w ++ [fl] /\
+     exists ta' ha', ModelTree w' m ta' (files ++ [fid]) /\ erase ta' = h_set_local ha' (set_add fid (h_local ha')) /\ P ha').
+Proof. exact load_parsed_merge. Qed.
+
+(* the first file of a model: the parsed tree becomes the model tree, the root is in that file *)
+Theorem C09_load_first :
+  forall (T : tables) (LATEST defref : N) (m : N) (filename : list N) (root : Parser.etree) (st : Parser.pstate)
+         (w : world) (x : model) (r : out N) (w' : world),
+    nth_opt (w_models w) (N.to_nat m) = Some x -> m_files x = [] ->
+    load_parsed T LATEST defref m filename root st w = Val (r, w') ->
+    let fid := N.of_nat (List.length (w_files w)) in
+    r = ER OverlappingDataError \/
+    (r = OK fid /\ w_files w' = w_files w ++ [mkFile m filename (Parser.p_version st) (Parser.p_standalone st)] /\
+     exists ta, ModelTree w' m ta [fid] /\ erase ta = h_set_local (htree_of_etree root) [fid]).
+Proof. exact load_parsed_first. Qed.
+
+(* the abstraction is what the readback of the model runner / of C09_full computes *)
+Theorem C09_model_tree_readback :
+  forall (w : world) (m : N) (ta : atree) (files : list N), ModelTree w m ta files -> abs_model w m = Some (erase ta).
+Proof. exact ModelTree_abs_model. Qed.
+
+(* ---- C09 on the heap model, class Good, for AutosarModel::load_buffer [U over tables, worlds, masters of the class,
+        splits, buffers]: M is a master of the class Good whose files are numbered in load order (file k = file id b + k,
+        b = number of files of the world; every load order of every split is the id order of a relabelled master), the
+        buffers parse to the partial views of M (all of version v) and are loaded into an empty model m.  Then no load
+        is rejected by the merge; if the loads return and none is rejected for a duplicate file name or by the overlap
+        check of the path index, then EVERY load succeeds with its file id, and the tree of the model — read back from
+        the heap — is the master restricted to the loaded files: every element exactly once, below bags in any order,
+        local membership = the files that contain it (empty = inherited).  It is the master up to the order of siblings
+        when the files cover it, and filtering any file out of it (the way serialize does) gives that file's view. *)
+Theorem C09_merge_union :
+  forall (T : tables) (tab_el tab_at tab_en : nametab) (check_fn : N -> list N -> res bool)
+         (float_parse : list N -> option N) (LATEST defref v : N)
+         (M : mtree) (m : N) (x : model) (w0 : world) (n : nat) (strict : bool)
+         (bufs : list (list N * list N)) (items : list item)
+         (os : list (out (N * list Parser.perror))) (w : world),
+    Good T defref v M ->
+    nth_opt (w_models w0) (N.to_nat m) = Some x -> m_files x = [] ->
+    let gs := n_range (S n) (N.of_nat (List.length (w_files w0))) in
+    Forall2 (parses_to T tab_el tab_at tab_en check_fn float_parse strict) bufs items ->
+    Forall2 (is_view v M) gs items ->
+    (forall g, In g gs -> In g (mfiles M)) ->
+    load_bufs T tab_el tab_at tab_en check_fn float_parse LATEST defref m strict bufs w0 = Val (os, w) ->
+    Forall (fun o => o <> ER DuplicateFilenameError /\ o <> ER OverlappingDataError) os ->
+    Forall2 (fun g o => exists ws, o = OK (g, ws)) gs os /\
+    exists ta, ModelTree w m ta gs /\ abs_model w m = Some (erase ta) /\
+               Rep T (rev gs) None M (erase ta) /\
+               (covers gs M -> hperm (erase ta) (expected None M)) /\
+               (forall f, In f gs -> hperm (hproj f (erase ta)) (pview f M)).
+Proof. exact heap_union_buffers. Qed.
+
+(* the same for the load sequence C09_full is phrased with (load_parsed on the projected views, parser state pstate_of) *)
+Theorem C09_merge_union_views :
+  forall (T : tables) (LATEST defref v : N) (M : mtree) (m : N) (x : model) (w0 : world) (n : nat)
+         (os : list (out N)) (w : world),
+    Good T defref v M ->
+    nth_opt (w_models w0) (N.to_nat m) = Some x -> m_files x = [] ->
+    let gs := n_range (S n) (N.of_nat (List.length (w_files w0))) in
+    (forall g, In g gs -> In g (mfiles M)) ->
+    load_views T LATEST defref m M (fun _ => v) gs w0 = Val (os, w) ->
+    Forall (fun o => o <> ER OverlappingDataError) os ->
+    Forall2 (fun g o => o = OK g) gs os /\
+    exists ta, ModelTree w m ta gs /\ abs_model w m = Some (erase ta) /\
+               Rep T (rev gs) None M (erase ta) /\
+               (covers gs M -> hperm (erase ta) (expected None M)) /\
+               (forall f, In f gs -> hperm (hproj f (erase ta)) (pview f M)).
+Proof. exact heap_union. Qed.
